@@ -14,7 +14,6 @@ import (
 	"path/filepath"
 	"strconv"
 
-	"verif/core"
 	"verif/keysim"
 )
 
@@ -128,7 +127,9 @@ func main() {
 		seed, _ := strconv.ParseUint(os.Args[4], 10, 64)
 		e, _ := strconv.Atoi(os.Args[5])
 		ep := keysim.NewBatch(os.Args[2], os.Args[3], seed).At(e)
-		core.WriteJSON("/dev/stdout", ep)
+		enc := json.NewEncoder(os.Stdout)
+		enc.SetIndent("", " ")
+		enc.Encode(ep)
 	default:
 		fmt.Fprintln(os.Stderr, "unknown subcommand")
 		os.Exit(2)
